@@ -266,6 +266,7 @@ class SimSocket:
 		if not self.queue:
 			raise BlockingIOError(errno.EAGAIN, "Resource temporarily unavailable")
 		data, src = self.queue.pop(0)
+		self.net.sim.record("recv", port=self.addr[1] if self.addr else None, data=data, src=src, bufsize=bufsize)
 		if len(data) > bufsize:  # UDP semantics: the excess is discarded
 			self.net.stats["recv-truncation"] = self.net.stats.get("recv-truncation", 0) + 1
 			self.trunc += 1
@@ -301,6 +302,7 @@ class SimNet:
 			del self.by_port[sock.addr[1]]
 
 	def send(self, sock, data, dst):
+		self.sim.record("tx", sport=sock.addr[1] if sock.addr else None, dst=tuple(dst), data=data)
 		if self.tx_hook is not None:
 			self.tx_hook(sock, data, dst)
 
@@ -340,6 +342,7 @@ class SelectSeam:
 			if ready:
 				return ready, [], []
 			t = sim.cur()
+			sim.record("select-enter", thread=t.name)
 			wid = t.new_wait(("select",))
 			self._net.select_waiters.append((t, wid, list(rlist)))
 			if timeout is not None:
